@@ -1,5 +1,5 @@
 From Coq Require Import Extraction ExtrOcamlBasic.
-From F8 Require Import Base.Conv Codec.Bytes Codec.Meta Codec.Extract Codec.Decode Codec.Encode Codec.Render C02.Spec_C02 C02.WfC02.
+From F8 Require Import Base.Conv Codec.Bytes Codec.Meta Codec.Extract Codec.Decode Codec.Encode Codec.Render C02.Spec_C02 C02.WfC02 C02.CopyModel.
 Extraction Language OCaml.
 Extraction "../ocaml/gen/C02/model.ml" keep_types
   cstr itoa_N itoa_Z fast_atoi_u16 fast_atoi_u32 fast_atoi_i32
@@ -9,4 +9,4 @@ Extraction "../ocaml/gen/C02/model.ml" keep_types
   real_caps mbase_decode msg_decode factory
   mb_encode msg_encode msg_encode_str
   render_default canonical
-  tokenize wire_ok tree_of wf_ctx wf_msg fresh.
+  tokenize wire_ok tree_of wf_ctx wf_msg fresh copy_legal.
